@@ -30,6 +30,7 @@ ABSENT = "__ABSENT__"
 SYMBOLS = {
     "V1": "CCO>>CC=O",                       # rule-based
     "V2": "CC(=O)O.CCO>>CC(=O)OCC.O",        # input-balanced
+    "V3": "CCBr>>N",                         # valid, declined (no common substructure); only used by the stale sources
     "M1": "C(C)(>>CC",                       # unparsable SMILES
     "M2": "CCO",                             # no separator
     "M3": "CCO>CC>CC=O",                     # reagent style
@@ -42,7 +43,7 @@ SYMBOLS = {
     "M7b": NAN,                              # missing value: NaN
     "M7c": ABSENT,                           # missing value: key / cell absent
 }
-VALID = ("V1", "V2")
+VALID = ("V1", "V2", "V3")
 UNSOLVABLE = ("M1", "M2", "M3", "M4", "M7a", "M7b", "M7c", "M8", "M9")   # can never be solved
 
 SOURCE_SYMBOLS = {
@@ -55,7 +56,17 @@ SOURCE_SYMBOLS = {
     "dictid": ["V1", "V2", "M1", "M2", "M8", "M7a"],
     # non-default column names; the rows also carry a decoy 'reaction' / 'id' column
     "custom": ["V1", "V2", "M1", "M2", "M8", "M7a"],
+    # a result table fed in again: dict rows that carry the output columns of an earlier (unrelated) result
+    "stale0": ["V1", "V2", "V3", "M1", "M7a"],
+    "stale1": ["V1", "V2", "V3", "M1", "M7a"],
+    "stale2": ["V1", "V2", "V3", "M1", "M7a"],
 }
+STALE = [
+    {"input_reaction": "CC(=O)OC>>CC(=O)O", "solved": True, "solved_by": "mcs-based", "confidence": 0.9,
+     "rules": ["C-O Ester break"], "issue": ""},
+    {"input_reaction": "CC>>N", "solved": False, "solved_by": None, "confidence": None, "rules": [], "issue": "No MCS identified."},
+    {"input_reaction": "CCO>>CC=O", "solved": True, "solved_by": "rule-based", "confidence": None, "rules": [], "issue": ""},
+]
 
 
 def sequences(symbols, n):
@@ -91,6 +102,9 @@ def build_input(source, seq, d):
         rows.append(r)
     if source == "dict":
         return rows
+    if source.startswith("stale"):
+        k = int(source[5:])
+        return [dict(r, **{c: (list(v) if isinstance(v, list) else v) for c, v in STALE[(i + k) % 3].items()}) for i, r in enumerate(rows)]
     if source == "dictid":
         for i, r in enumerate(rows):
             r["id"] = 100 - 7 * i
@@ -154,10 +168,13 @@ def check_rows(source, seq, rows, where):
                         "row {} of {} describes {!r} instead of {!r} ({})".format(i, list(seq), ir, raw, where)))
         if sym in VALID:
             a = alone(sym)
-            for k in ("reaction", "solved", "solved_by"):
-                if row.get(rcol if k == "reaction" else k) != a.get(k):
+            for k in ("reaction", "solved", "solved_by") + (("issue", "confidence", "rules") if source.startswith("stale") else ()):
+                got, want = row.get(rcol if k == "reaction" else k), a.get(k)
+                if k in ("issue", "rules"):
+                    got, want = got or None, want or None
+                if got != want:
                     bad.append((["valid-row-differs", k], "row {} of {}: {} = {!r}, alone-run gives {!r} ({})".format(
-                        i, list(seq), k, row.get(k), a.get(k), where)))
+                        i, list(seq), k, got, want, where)))
         if sym in UNSOLVABLE and row.get("solved") in (True, "True"):
             bad.append((["malformed-solved"], "row {} of {} ({!r}) is marked solved ({})".format(i, list(seq), raw, where)))
     return bad
@@ -296,14 +313,14 @@ def run(tier, seed):
         for source in ("str", "dict", "csv", "json"):
             for seq in sequences(SOURCE_SYMBOLS[source], 2):
                 jobs.append({"source": source, "seq": list(seq)})
-        for source in ("dictid", "custom"):
+        for source in ("dictid", "custom", "stale0", "stale1", "stale2"):
             for seq in sequences(SOURCE_SYMBOLS[source], 2):
                 jobs.append({"source": source, "seq": list(seq)})
         for source, sub in (("dict", ["V1", "V2", "M1", "M2", "M8", "M7a"]), ("str", ["V1", "V2", "M1", "M9", "M3", "M5"])):
             for seq in itertools.product(sub, repeat=3):
                 jobs.append({"source": source, "seq": list(seq)})
     else:
-        for source in ("str", "dict", "csv", "json", "dictid", "custom"):
+        for source in ("str", "dict", "csv", "json", "dictid", "custom", "stale0", "stale1", "stale2"):
             nn = 4 if source == "str" else 3
             for seq in sequences(SOURCE_SYMBOLS[source], nn):
                 jobs.append({"source": source, "seq": list(seq)})
@@ -348,7 +365,7 @@ def run(tier, seed):
                 "error, no '>>', reagent style, empty string, empty side, '>>', None, NaN, absent}} (per source the values it can express; quick: length "
                 "<= 2 complete and length 3 over a 6-symbol sub-alphabet for the in-memory sources; thorough: length <= 3 "
                 "for all sources, <= 4 for list-of-str) x batch_size "
-                "None,1..n+1 x sources list-of-str, list-of-dict, dict rows with a pre-existing non-sequential id column, custom column names (reaction_col / id_col) with decoy columns, CSV Dataset, JSON Dataset; CLI (argparse entry, in "
+                "None,1..n+1 x sources list-of-str, list-of-dict, dict rows with a pre-existing non-sequential id column, custom column names (reaction_col / id_col) with decoy columns, dict rows carrying the output columns of an earlier unrelated result (3 rotations), CSV Dataset, JSON Dataset; CLI (argparse entry, in "
                 "process) with --out-columns tag for all sequences of length <= {} x all layouts, {} real subprocess "
                 "runs; refusal of non-str/dict elements.  Non-trivial = distinct (source, sequence) cases containing at "
                 "least one malformed row.".format(n, 3 if tier == "thorough" else 2, len(sub)),
